@@ -570,3 +570,8 @@ def finish(ctx):
       ("sd:default-rechosen-after-loss", 100),
       ("mkd:steps-compared", 5000), ("sd:steps-compared", 5000)]:
     ctx.need(key, minimum)
+
+
+# extension family (second round of seeded changes), see props/c15_x.py
+from props import c15_x as _x, ext as _ext
+_ext.install(globals(), _x)
